@@ -4,6 +4,7 @@
 //! with cases produced from the TLA+ specification and records what the code did
 //! as ndjson events that TLC validates against the specification.
 mod build_driver;
+mod config;
 mod corpus;
 mod gen;
 mod topo;
@@ -20,6 +21,7 @@ fn main() {
         "gen" => gen::main(rest),
         "build" => build_driver::main(rest),
         "corpus" => corpus::main(rest),
+        "config" => config::main(rest),
         other => {
             eprintln!("unknown subcommand {}", other);
             2
